@@ -1,4 +1,5 @@
 import CJ.Lemmas.Liveness
+import CJ.Lemmas.LivenessX
 /-!
 # C18 — cached liveness verdicts are never stale or flipped, and the cache is bounded
 
@@ -348,5 +349,168 @@ example : lastEv (events cfg0 [.query 10 "a" true, .clear 8000]) "a" true = some
       subst ht
       have := (h.mp hx).2
       simp [Cache.exp] at this
+
+/-! ### the probe result as a pair `(bool, error)`
+
+The probe function is injectable and returns a boolean *and* an error.  The verdict is the boolean; the
+error may be anything (`nil`, `NotLive`, a wrapped `NotLive`, `ErrLiveHost`, a dial or scanner failure, a
+context error).  Histories below are lists of `XOp`: every query carries the whole pair a probe would
+return.  `probesX` is the log of the pairs the probe really returned. -/
+
+def probesX (cfg : Config) (ops : List XOp) : List XProbe := logXFrom (new cfg).1 [] ops
+
+/-- the most recent measurement of address `a`: time and the pair the probe returned -/
+def lastMeasuredX (cfg : Config) (ops : List XOp) (a : String) : Option (Int × Measured) := lastOfX (probesX cfg ops) a
+
+def ChronologicalX (ops : List XOp) : Prop := ops.Pairwise (fun x y => x.time ≤ y.time)
+
+/-- the answer of the query that follows the history -/
+def answerX (cfg : Config) (ops : List XOp) (now : Int) (a : String) (r : Measured) : XOut :=
+  (stepX (runX cfg ops) (.query now a r)).2
+
+theorem answerX_forget (cfg : Config) (ops : List XOp) (now : Int) (a : String) (r : Measured) :
+    (answerX cfg ops now a r).forget = answer cfg (ops.map XOp.forget) now a r.live := by
+  unfold answerX answer
+  rw [runX_forget]
+  exact queryX_snd _ now a r
+
+theorem chronological_forget (ops : List XOp) (h : ChronologicalX ops) : Chronological (ops.map XOp.forget) := by
+  unfold Chronological
+  rw [List.pairwise_map]
+  simp only [XOp.forget_time]
+  exact h
+
+theorem lastMeasured_forget (cfg : Config) (ops : List XOp) (a : String) :
+    lastMeasured cfg (ops.map XOp.forget) a = (lastMeasuredX cfg ops a).map (fun p => (p.1, p.2.live)) := by
+  unfold lastMeasured lastMeasuredX probes probesX
+  have h := logXFrom_forget ops (new cfg).1 []
+  simp only [List.map_nil] at h
+  rw [← h]
+  exact lastOf_forget _ a
+
+/-- **The store reads the boolean only**: which cache a fresh measurement is filed in does not depend on the
+error that came with it … -/
+theorem store_reads_boolean_only (live nonLive : Option Cache) (now : Int) (a : String) (v : Bool) (e e' : ProbeErr) :
+    store live nonLive now a ⟨v, e⟩ = store live nonLive now a ⟨v, e'⟩ := rfl
+
+/-- … and a measurement never touches the cache of the *other* boolean, whatever its error: `(false, e)`
+leaves the live cache as it is, `(true, e)` leaves the non-live cache as it is. -/
+theorem store_leaves_other_cache (live nonLive : Option Cache) (now : Int) (a : String) (e : ProbeErr) :
+    (store live nonLive now a ⟨false, e⟩).1 = live ∧ (store live nonLive now a ⟨true, e⟩).2 = nonLive :=
+  ⟨rfl, rfl⟩
+
+/-- every answer is a cache hit or the pair that exactly one probe returned, handed back unaltered -/
+theorem probe_result_returned_unaltered (cfg : Config) (ops : List XOp) (now : Int) (a : String) (r : Measured) :
+    (∃ v, answerX cfg ops now a r = .cached v) ∨ answerX cfg ops now a r = .probed r :=
+  queryX_shape _ now a r
+
+/-- the log holds what the probes returned: an entry of the pair log belongs to a query of the history that
+carried that very pair -/
+theorem logged_pair_was_returned (cfg : Config) (ops : List XOp) (p : XProbe) (h : p ∈ probesX cfg ops) :
+    XOp.query p.1 p.2.1 p.2.2 ∈ ops := by
+  unfold probesX at h
+  suffices H : ∀ (ops : List XOp) (t : Tester) (acc : List XProbe), p ∈ logXFrom t acc ops →
+      p ∈ acc ∨ XOp.query p.1 p.2.1 p.2.2 ∈ ops by
+    rcases H ops _ [] h with h | h
+    · cases h
+    · exact h
+  intro ops
+  induction ops with
+  | nil => intro t acc h; exact Or.inl h
+  | cons o os ih =>
+    intro t acc h
+    rcases ih (stepX t o).1 (probeOfX t o ++ acc) h with h | h
+    · rcases List.mem_append.mp h with h | h
+      · right
+        rw [← probeOfX_mem t o p h]
+        exact List.mem_cons_self ..
+      · exact Or.inl h
+    · exact Or.inr (List.mem_cons_of_mem _ h)
+
+/-- **The served verdict equals the measured boolean, for every error component**: in a chronological
+history of pairs, a verdict `v` answered from the cache is the boolean of the *most recent* pair the probe
+returned for that address - whichever error `e` that pair carried - and that measurement is younger than
+verdict `v`'s lifetime.  (No hypothesis on `e`: `nil`, `NotLive`, wrapped, `ErrLiveHost`, any other error,
+a context error.) -/
+theorem served_verdict_equals_measured_boolean (cfg : Config) (ops : List XOp) (now : Int) (a : String)
+    (r : Measured) (v : Bool)
+    (hc : ChronologicalX (ops ++ [.query now a r]))
+    (h : answerX cfg ops now a r = .cached v) :
+    ∃ d tm e, cfg.dur v = .ok d ∧ lastMeasuredX cfg ops a = some (tm, ⟨v, e⟩) ∧ tm ≤ now ∧ now - tm < d := by
+  have h0 : answer cfg (ops.map XOp.forget) now a r.live = .cached v := by
+    rw [← answerX_forget, h]; rfl
+  have hc0 : Chronological (ops.map XOp.forget ++ [.query now a r.live]) := by
+    have := chronological_forget _ hc
+    simpa only [List.map_append, List.map_cons, List.map_nil, XOp.forget] using this
+  obtain ⟨d, tm, h1, h2, h3, h4⟩ := served_verdict_was_measured cfg _ now a r.live v hc0 h0
+  rw [lastMeasured_forget] at h2
+  cases hl : lastMeasuredX cfg ops a with
+  | none => rw [hl] at h2; cases h2
+  | some p =>
+    rw [hl] at h2
+    obtain ⟨tp, ⟨vp, ep⟩⟩ := p
+    simp only [Option.map_some, Option.some.injEq, Prod.mk.injEq] at h2
+    obtain ⟨rfl, rfl⟩ := h2
+    exact ⟨d, tp, ep, h1, rfl, h3, h4⟩
+
+/-- in particular a cache hit never contradicts the most recent pair: if the probe last returned
+`(b, e)` for the address, no later query is answered `¬b` from the cache -/
+theorem served_never_flipped (cfg : Config) (ops : List XOp) (now : Int) (a : String) (r : Measured)
+    (tm : Int) (b : Bool) (e : ProbeErr)
+    (hc : ChronologicalX (ops ++ [.query now a r]))
+    (hl : lastMeasuredX cfg ops a = some (tm, ⟨b, e⟩)) :
+    answerX cfg ops now a r ≠ .cached (!b) := by
+  intro h
+  obtain ⟨_, tm', e', _, h2, _, _⟩ := served_verdict_equals_measured_boolean cfg ops now a r (!b) hc h
+  rw [hl] at h2
+  simp only [Option.some.injEq, Prod.mk.injEq, Measured.mk.injEq] at h2
+  cases b <;> simp at h2
+
+/-- **Never-cached kinds stay uncached**: a verdict whose lifetime is not configured is never answered from
+the cache, after any history of pairs (live-only configuration: no `(false, ErrCachedPhantom)`; non-live-only:
+no `(true, ErrCachedPhantom)`) … -/
+theorem unconfigured_verdict_never_served (cfg : Config) (ops : List XOp) (now : Int) (a : String) (r : Measured)
+    (v : Bool) (hv : ∀ d, cfg.dur v ≠ .ok d) : answerX cfg ops now a r ≠ .cached v := by
+  intro h
+  have h0 : answer cfg (ops.map XOp.forget) now a r.live = .cached v := by
+    rw [← answerX_forget, h]; rfl
+  obtain ⟨d, _, h1, _, _⟩ := served_only_if_fresh cfg _ now a r.live v h0
+  exact hv d h1
+
+/-- … and an address whose most recent measurement `(b, e)` has a boolean that is not cached in this
+configuration is probed again by the next query, whatever `e` was. -/
+theorem unconfigured_kind_probed_again (cfg : Config) (ops : List XOp) (now : Int) (a : String) (r : Measured)
+    (tm : Int) (b : Bool) (e : ProbeErr)
+    (hc : ChronologicalX (ops ++ [.query now a r]))
+    (hl : lastMeasuredX cfg ops a = some (tm, ⟨b, e⟩)) (hb : ∀ d, cfg.dur b ≠ .ok d) :
+    answerX cfg ops now a r = .probed r := by
+  rcases probe_result_returned_unaltered cfg ops now a r with ⟨v, hv⟩ | hp
+  · exfalso
+    obtain ⟨d, tm', e', h1, h2, _, _⟩ := served_verdict_equals_measured_boolean cfg ops now a r v hc hv
+    rw [hl] at h2
+    simp only [Option.some.injEq, Prod.mk.injEq, Measured.mk.injEq] at h2
+    obtain ⟨_, rfl, _⟩ := h2
+    exact hb d h1
+  · exact hp
+
+/-- two histories that differ only in the error components of the probe results leave the tester in the
+same state and get the same kind of answer -/
+theorem error_component_irrelevant (cfg : Config) (ops ops' : List XOp) (h : ops.map XOp.forget = ops'.map XOp.forget) :
+    runX cfg ops = runX cfg ops' := by
+  rw [runX_forget, runX_forget, h]
+
+-- non-vacuity: a non-live verdict that came with another error is cached as non-live and served as such;
+-- in a live-only configuration it is probed again
+def cfg2 : Config := { durLive := .ok 7200, capLive := 0, durNonLive := .ok 3600, capNonLive := 0 }
+def cfg3 : Config := { durLive := .ok 7200, capLive := 0, durNonLive := .unset, capNonLive := 0 }
+example : answerX cfg2 [.query 10 "a" ⟨false, .other⟩] 20 "a" ⟨true, .liveHost⟩ = .cached false := by
+  simp [answerX, runX, runXFrom, stepX, queryX, store, cfg2, new, initCached, lookupOpt, addOpt, Cache.lookup,
+    Cache.add, newMapCache]
+example : lastMeasuredX cfg2 [.query 10 "a" ⟨false, .other⟩] "a" = some (10, ⟨false, .other⟩) := by
+  simp [lastMeasuredX, lastOfX, probesX, logXFrom, probeOfX, queryX, store, cfg2, new, initCached,
+    lookupOpt, addOpt, Cache.lookup, Cache.add, newMapCache]
+example : answerX cfg3 [.query 10 "a" ⟨false, .nil⟩] 20 "a" ⟨false, .ctxCanceled⟩ = .probed ⟨false, .ctxCanceled⟩ := by
+  simp [answerX, runX, runXFrom, stepX, queryX, store, cfg3, new, initCached, lookupOpt, addOpt, Cache.lookup,
+    Cache.add, newMapCache]
 
 end CJ.Props.C18
